@@ -19,6 +19,7 @@ LEVELS = {
  "C02": ("exploration", "4.C02", "Thousands of generated model programs on the float, int and Duration clocks are executed by the real simulator and by a 200-line reference DEVS interpreter; the handler log (tag, clock inside the handler), the outcome and pending-size effect of every scheduling request, every write of the clock (attribute tap) and the final clock are compared bit-for-bit. Held = all histories agreed.", "Programs without failing handlers under start() to the replication end; an illegal request counts as refused when it raises and the pending size is unchanged."),
  "C03": ("exploration", "4.C03", "Generated programs x generated segmentation schedules (bounded runs exclusive/inclusive, steps, pauses forced deterministically by parking a handler at a gate while stop() is issued, cuts at/between event times, at warm-up, at/beyond the end, before the clock): after every segment the executed events, clock, state, pending size and END_REPLICATION notification are compared with the reference interpreter, and the concatenation with one uninterrupted run. Held = all segments and compositions agreed.", "Open points of the statement are accepted in every reading (listed in the evidence assumptions); pauses land between events, never inside the library's own transitions (that is C04)."),
  "C05": ("fault_enumeration", "4.C05", "For every generated program each single executed event is made to fail in turn (all singles), then pairs and random subsets, at varying positions inside the handler, under log/warn/pause strategies and start / bounded / step / mixed drivers; after every run segment the executed events, state, clock and pending size are compared with the reference interpreter (continue = as if the handler had returned at the raise; pause = stop right after the failing event, resume runs exactly the rest). Held = all fault sets explored agreed.", "Fault = exception raised by the handler; WARN_AND_END/EXIT outside the statement; a failing step may return or raise DSOLError."),
+ "C06": ("exploration", "4.C06", "Differential: after a generated prior history (fresh / stepped / paused at an event / bounded run / ended / ended twice / paused by a handler fault / cleaned up / initialise refused while running) the same simulator and model are initialised again and run; trace, clock, state, notification stream, every statistics getter (hex) and the output-statistic map are compared with the same replication on a brand-new simulator; the state right after initialize is compared too. Held = no difference on the histories explored.", "Streams are re-created with the same seed in construct_model; same model object and replication settings."),
 }
 
 def main():
